@@ -227,6 +227,12 @@ def check_float_decode_bounded(repo, rep):
     if not (bounded_hi and bounded_lo):
         rep.violation(rid, "float-decode|unbounded", f"dna_to_hp: the float branch (`{txt[:120]}`) does not bound the decoded value by the declared range; in IEEE doubles the last "
                                                       f"letter of a parameter declared in [{mn}, {mx}] decodes to {witness!r} > max")
+    # the bounding construct returns one of its operands: when that is a declared bound written as an int literal (max = 1), the
+    # decoded value of a float parameter would be an int - the result must be converted
+    for st in body:
+        if isinstance(st, ast.Assign) and isinstance(st.value, ast.Call) and SLAST(st.value) in ("min", "max", "minimum", "maximum") and ("h['max']" in norm(st.value) or "h['min']" in norm(st.value)):
+            rep.violation(rid, "float-decode|type", f"dna_to_hp: `{norm(st)}` can return the declared bound object itself (an int for `'max': 1`), so a float hyperparameter is "
+                                                    f"decoded to an int on the letters where the bound applies; wrap the result in float()")
     rep.instance(rid, "float-branch", {"statements": txt[:200], "bounded_above": bounded_hi, "bounded_below": bounded_lo, "ieee_witness_unbounded": repr(witness)})
     rep.floor(rid, 1)
 
